@@ -5,6 +5,7 @@ import math
 
 import numpy as np
 
+import c09_scale
 import tracker_impl as ti
 from coqbridge import fl
 
@@ -17,7 +18,11 @@ RULE = ("Single steps of the real Tracker.update on a real ROMS.Grid built from 
         "towards the open boundary, huge, NaN, inf), inactive and dead particles; positions dyadic so the comparison "
         "with the Coq model is exact. Plus multi-step histories with diffusion and EF/RK2/RK4 where the invariant is "
         "checked after every step by the oracle. Non-trivial = distinct case in which at least one candidate hits land "
-        "or leaves the grid.")
+        "or leaves the grid. First in the list, always present: deterministic cases at realistic scale (c09_scale.py, oracle "
+        "only): one exact step of 1000 ... 130000 particles (sizes straddling powers of two), a grid of more than 2^16 "
+        "cells with a subgrid, histories of 9000-70000 particles with removal and release, lives of more than 1000 steps "
+        "with identifiers beyond the size of the state, and one whole simulation through ladim.main.main with 27000 "
+        "particles and >250000 stored instances; every clause decided for every particle with numpy.")
 TRUSTED = ["Coq 8.16.1 kernel + vm_compute", "hand-written model coq/Model/Tracker.v (move, ingrid, atsea) tied by this correspondence",
            "numpy round() = round half to even (modelled as qround)", "netCDF4 for the synthetic grid files"]
 ASSUMPTIONS = ["released particles start in sea cells of the valid region (the property's quantifier)",
@@ -27,7 +32,8 @@ DT, DX = 512.0, 1024.0
 
 def gen_cases(ctx):
     rng = ctx.rng
-    out = [{"k": "warmdead", "adv": "RK2"}, {"k": "bulkrecords", "n": 3005, "dead": [3000, 3001, 3002, 3003, 3004]},
+    out = c09_scale.gen_scale_cases(ctx)  # deterministic, draws nothing from ctx.rng
+    out += [{"k": "warmdead", "adv": "RK2"}, {"k": "bulkrecords", "n": 3005, "dead": [3000, 3001, 3002, 3003, 3004]},
            {"k": "bulkrecords", "n": 120000, "dead": [17, 60000]}]
     n = 120 if ctx.quick else 1500
     for _ in range(n):
@@ -113,6 +119,8 @@ def in_valid(x, y, lim):
 
 
 def eval_case(desc, ctx):
+    if desc["k"].startswith("scale"):
+        return c09_scale.eval_scale(desc, ctx)
     if desc["k"] == "warmdead":
         # "a dead particle appears in no later record", across a warm start (oracle only): the particle killed in the
         # first leg must not come back — under its identifier — in the files of the restarted run
